@@ -448,6 +448,14 @@ func main() {
 		}
 		sh := shrink(s, *model, scripts[i])
 		dd, g, m, fs := diverges(s, *model, sh)
+		if dd < 0 {
+			// the divergence did not come back on the re-run (the code's answer depends on something
+			// that is not in the script, e.g. map iteration order): report what was SEEN, unshrunk
+			cut := d + 1
+			rep.Mismatches = append(rep.Mismatches, Mismatch{Case: i, Line: d, Script: scripts[i][:cut], GoOut: goOuts[i][:min(cut, len(goOuts[i]))],
+				ModelOut: mOuts[i][:min(cut, len(mOuts[i]))], Shrunk: false, Findings: fs})
+			continue
+		}
 		rep.Mismatches = append(rep.Mismatches, Mismatch{Case: i, Line: dd, Script: sh, GoOut: g, ModelOut: m, Shrunk: true, Findings: fs})
 	}
 	rep.WallS = time.Since(t0).Seconds()
